@@ -64,20 +64,20 @@ macro_rules! range_inst {
                 EncRaw { bulk: b.into_iter().map(|w| w.to_u128()).collect(), lower: st.lower().to_u128(), range: constriction::NonZeroBitArray::get(st.range()).to_u128(), sit_n: n, sit_w: w }
             }
             fn enc(&mut self, prec: usize, cdf: &[u64], sym: usize) -> Result<(), String> {
-                match prec { $($P => self.0.encode_symbol(sym, Tab::<$W, $P>::new(cdf)).map_err(enc_err),)* _ => panic!("unsupported precision {}", prec) }
+                match prec { $($P => if crate::tab::narrow::<<$W as crate::tab::NarrowOf>::N, $P>() { self.0.encode_symbol(sym, Tab::<<$W as crate::tab::NarrowOf>::N, $P>::new(cdf)).map_err(enc_err) } else { self.0.encode_symbol(sym, Tab::<$W, $P>::new(cdf)).map_err(enc_err) },)* _ => panic!("unsupported precision {}", prec) }
             }
             fn enc_iid(&mut self, prec: usize, cdf: &[u64], syms: &[usize]) -> Result<(), String> {
-                match prec { $($P => self.0.encode_iid_symbols(syms, Tab::<$W, $P>::new(cdf)).map_err(enc_err),)* _ => panic!("unsupported precision {}", prec) }
+                match prec { $($P => if crate::tab::narrow::<<$W as crate::tab::NarrowOf>::N, $P>() { self.0.encode_iid_symbols(syms, Tab::<<$W as crate::tab::NarrowOf>::N, $P>::new(cdf)).map_err(enc_err) } else { self.0.encode_iid_symbols(syms, Tab::<$W, $P>::new(cdf)).map_err(enc_err) },)* _ => panic!("unsupported precision {}", prec) }
             }
             fn enc_symbols(&mut self, prec: usize, items: &[(usize, Vec<u64>)]) -> Result<(), String> {
-                match prec { $($P => self.0.encode_symbols(items.iter().map(|(s, c)| (*s, Tab::<$W, $P>::new(c)))).map_err(enc_err),)* _ => panic!("unsupported precision {}", prec) }
+                match prec { $($P => if crate::tab::narrow::<<$W as crate::tab::NarrowOf>::N, $P>() { self.0.encode_symbols(items.iter().map(|(s, c)| (*s, Tab::<<$W as crate::tab::NarrowOf>::N, $P>::new(c)))).map_err(enc_err) } else { self.0.encode_symbols(items.iter().map(|(s, c)| (*s, Tab::<$W, $P>::new(c)))).map_err(enc_err) },)* _ => panic!("unsupported precision {}", prec) }
             }
             fn into_compressed(self: Box<Self>) -> Words { self.0.into_compressed().unwrap().into_iter().map(|w| w.to_u128()).collect() }
             fn into_decoder(self: Box<Self>) -> Box<dyn RDecDyn> { Box::new(DInst::<$W, $S>(self.0.into_decoder().unwrap())) }
             fn get_compressed(&mut self) -> Words { let g = self.0.get_compressed(); g.iter().map(|w| w.to_u128()).collect() }
             fn temp_decode(&mut self, prec: usize, tabs: &[Vec<u64>]) -> Vec<Result<usize, String>> {
                 let mut d = self.0.decoder();
-                tabs.iter().map(|c| match prec { $($P => d.decode_symbol(Tab::<$W, $P>::new(c)).map_err(dec_err),)* _ => panic!("unsupported precision {}", prec) }).collect()
+                tabs.iter().map(|c| match prec { $($P => if crate::tab::narrow::<<$W as crate::tab::NarrowOf>::N, $P>() { d.decode_symbol(Tab::<<$W as crate::tab::NarrowOf>::N, $P>::new(c)).map_err(dec_err) } else { d.decode_symbol(Tab::<$W, $P>::new(c)).map_err(dec_err) },)* _ => panic!("unsupported precision {}", prec) }).collect()
             }
             fn num_words(&self) -> usize { self.0.num_words() }
             fn num_bits(&self) -> usize { self.0.num_bits() }
@@ -92,13 +92,13 @@ macro_rules! range_inst {
                 DecRaw { lower: st.lower().to_u128(), range: constriction::NonZeroBitArray::get(st.range()).to_u128(), point: point.to_u128(), pos: b.pos() }
             }
             fn dec(&mut self, prec: usize, cdf: &[u64]) -> Result<usize, String> {
-                match prec { $($P => self.0.decode_symbol(Tab::<$W, $P>::new(cdf)).map_err(dec_err),)* _ => panic!("unsupported precision {}", prec) }
+                match prec { $($P => if crate::tab::narrow::<<$W as crate::tab::NarrowOf>::N, $P>() { self.0.decode_symbol(Tab::<<$W as crate::tab::NarrowOf>::N, $P>::new(cdf)).map_err(dec_err) } else { self.0.decode_symbol(Tab::<$W, $P>::new(cdf)).map_err(dec_err) },)* _ => panic!("unsupported precision {}", prec) }
             }
             fn dec_iid(&mut self, prec: usize, cdf: &[u64], n: usize) -> Vec<Result<usize, String>> {
-                match prec { $($P => self.0.decode_iid_symbols(n, Tab::<$W, $P>::new(cdf)).map(|r| r.map_err(dec_err)).collect(),)* _ => panic!("unsupported precision {}", prec) }
+                match prec { $($P => if crate::tab::narrow::<<$W as crate::tab::NarrowOf>::N, $P>() { self.0.decode_iid_symbols(n, Tab::<<$W as crate::tab::NarrowOf>::N, $P>::new(cdf)).map(|r| r.map_err(dec_err)).collect() } else { self.0.decode_iid_symbols(n, Tab::<$W, $P>::new(cdf)).map(|r| r.map_err(dec_err)).collect() },)* _ => panic!("unsupported precision {}", prec) }
             }
             fn dec_symbols(&mut self, prec: usize, tabs: &[Vec<u64>]) -> Vec<Result<usize, String>> {
-                match prec { $($P => self.0.decode_symbols(tabs.iter().map(|c| Tab::<$W, $P>::new(c))).map(|r| r.map_err(dec_err)).collect(),)* _ => panic!("unsupported precision {}", prec) }
+                match prec { $($P => if crate::tab::narrow::<<$W as crate::tab::NarrowOf>::N, $P>() { self.0.decode_symbols(tabs.iter().map(|c| Tab::<<$W as crate::tab::NarrowOf>::N, $P>::new(c))).map(|r| r.map_err(dec_err)).collect() } else { self.0.decode_symbols(tabs.iter().map(|c| Tab::<$W, $P>::new(c))).map(|r| r.map_err(dec_err)).collect() },)* _ => panic!("unsupported precision {}", prec) }
             }
             fn maybe_exhausted(&self) -> bool { self.0.maybe_exhausted() }
             fn seek(&mut self, pos: usize, lower: u128, range: u128) -> Result<(), ()> {
